@@ -15,6 +15,14 @@ spelling, order, mtimes, location), any single edit => different dicts, any outs
 ValueError, every file entry = prefix + hashlib digest; plus an exhaustive small domain on
 which "dicts equal <=> trees equal" is checked over all pairs.
 
+Process-level state (memoisation, module-level caches) is a failure class of its own for
+"independent of creation order, timestamps": inside ONE worker process one directory path goes
+through a sequence of states — hashed, hashed again unchanged (absolute, relative, other
+algorithm), every single edit applied in place with all mtimes/atimes put back and sizes kept
+for content flips, undone again, all bytes changed with sizes kept, removed and rebuilt at the
+same path, and the same relative path under another working directory — and after every step
+the result must be what that content demands (hashlib / model / previous step).
+
 Out of the model (generator precondition, see `chain_free`): link texts that end at or pass
 through another symlink — `Path.resolve` follows those and the code records the final target.
 """
@@ -256,10 +264,10 @@ def materialise(spec, W: Path) -> Path:
     texts = [e[2] for e in spec["entries"] if e[1] == "l"]
     (W / "out.txt").write_bytes(b"outside")
     if any("outd" in t for t in texts):          # fixtures outside the base, made when referred to
-        (W / "outd").mkdir()
+        (W / "outd").mkdir(exist_ok=True)
         (W / "outd" / "inner.txt").write_bytes(b"outside")
     if any(name + "x" in t for t in texts):
-        (W / (name + "x")).mkdir()
+        (W / (name + "x")).mkdir(exist_ok=True)
         (W / (name + "x") / "f.txt").write_bytes(b"outside")
     made = []
     for path, kind, payload in spec["entries"]:
@@ -301,6 +309,191 @@ def impl_tree(spec) -> Tuple[str, Any, str]:
             return ("exc:" + type(e).__name__, str(e)[:200], str(W))
         finally:
             os.chdir(cwd)
+
+
+T_FIXED = 1_600_000_000     # every entry of the same-process sequences keeps this mtime/atime
+
+
+def _sync_in_place(base: Path, W: Path, cur: Dict[Tuple[str, ...], Tuple[str, Any]], spec):
+    """Turn the directory at `base` (content `cur`) into `spec` by editing it IN PLACE: untouched
+    entries keep their inode, changed files are overwritten (not re-created), then every mtime and
+    atime is put back to the fixed value."""
+    tgt = {tuple(e[0]): (e[1], e[2]) for e in spec["entries"]}
+    for p in sorted(cur, key=len, reverse=True):
+        keep = p in tgt and tgt[p][0] == cur[p][0] and (cur[p][0] != "l" or tgt[p][1] == cur[p][1])
+        if not keep:
+            fp = base.joinpath(*p)
+            if cur[p][0] == "d":
+                os.rmdir(fp)
+            else:
+                os.unlink(fp)
+            del cur[p]
+    for p in sorted(tgt, key=len):
+        kind, payload = tgt[p]
+        fp = base.joinpath(*p)
+        if p not in cur:
+            fp.parent.mkdir(parents=True, exist_ok=True)
+            if kind == "d":
+                fp.mkdir(exist_ok=True)
+            elif kind == "f":
+                fp.write_bytes(payload.encode("latin-1"))
+            else:
+                os.symlink(payload.replace("@W@", str(W)), fp)
+        elif kind == "f" and cur[p][1] != payload:
+            with open(fp, "r+b") as fh:
+                fh.write(payload.encode("latin-1"))
+                fh.truncate()
+        cur[p] = (kind, payload)
+    for p in list(cur) + [()]:
+        os.utime(base.joinpath(*p), (T_FIXED, T_FIXED), follow_symlinks=False)
+
+
+def impl_inplace(job):
+    """A sequence of states of ONE directory path, hashed again after every step inside one
+    process.  step = {op, spec, rel}; op: fresh | rebuild (rmtree, build anew at the same path) |
+    sync (edit in place) | repeat (nothing changes) | other-cwd (same relative path under another
+    working directory).  -> per step (status, result, root, extras)."""
+    import shutil
+    from metador_core.util import hashsums as H
+    out = []
+    with vlib.workdir("c19p") as W0, vlib.workdir("c19q") as W1:
+        W, W2 = Path(os.path.realpath(W0)), Path(os.path.realpath(W1))
+        cur: Dict[Tuple[str, ...], Tuple[str, Any]] = {}
+        home = os.getcwd()
+        for st in job["steps"]:
+            op, spec = st["op"], st["spec"]
+            root = W2 if op == "other-cwd" else W
+            base = root / spec["name"]
+            if op in ("fresh", "rebuild", "other-cwd"):
+                if base.exists():
+                    shutil.rmtree(base)
+                materialise(spec, root)
+                if root is W:
+                    cur = {tuple(e[0]): (e[1], e[2]) for e in spec["entries"]}
+            elif op == "sync":
+                _sync_in_place(base, W, cur, spec)
+            extras = []
+            try:
+                with vlib.time_limit(TL):
+                    if st.get("rel"):
+                        os.chdir(root)
+                        res = H.dir_hashsums(Path(spec["name"]), spec["alg"])
+                    else:
+                        res = H.dir_hashsums(base, spec["alg"])
+                r = ("ok", res)
+            except vlib.CaseTimeout:
+                r = ("timeout", None)
+            except ValueError as e:
+                r = ("outside" if "points to the outside" in str(e) else "exc:ValueError", str(e)[:200])
+            except Exception as e:  # noqa: BLE001
+                r = ("exc:" + type(e).__name__, str(e)[:200])
+            finally:
+                os.chdir(home)
+            try:
+                with vlib.time_limit(TL):
+                    for path, kind, payload in spec["entries"]:
+                        if kind == "f":
+                            fp = base.joinpath(*path)
+                            with open(fp, "rb") as fh:
+                                extras.append([path, H.file_hashsum(fp, spec["alg"]),
+                                               H.qualified_hashsum(fh, spec["alg"]),
+                                               H.qualified_hashsum(payload.encode("latin-1"), spec["alg"])])
+            except Exception as e:  # noqa: BLE001
+                extras.append([["?"], "exc:" + type(e).__name__, str(e)[:100], ""])
+            out.append((r[0], r[1], str(root), extras))
+    return out
+
+
+def judge_job(job, res) -> List[Tuple[int, str, str]]:
+    """Property oracle on a same-process sequence: every step's result is what the directory
+    content at that moment demands, whatever was hashed before.  -> [(step, kind, why)]."""
+    if any(r[0] == "timeout" for r in res):
+        return []
+    bad = []
+    steps = job["steps"]
+    for k, (st, r) in enumerate(zip(steps, res)):
+        T, alg = tree_unjson(st["tree"]), st["spec"]["alg"]
+        j = judge_pair(T, T, r, r, alg)
+        if j is None:
+            for path, fh, sh, bh in r[3]:
+                n = lookup(T, tuple(path))
+                want = std_digest(alg, n[1]) if n is not None and n[0] == "f" else None
+                for fn, got in (("file_hashsum", fh), ("qualified_hashsum(stream)", sh), ("qualified_hashsum(bytes)", bh)):
+                    if got != want and j is None:
+                        j = ("digest-nonstandard", f"{fn} of {'/'.join(path)!r} is {got!r:.90}, standard digest is {want!r}")
+        if j is None and k > 0 and steps[k - 1]["spec"]["alg"] == alg:
+            j = judge_pair(tree_unjson(steps[k - 1]["tree"]), T, res[k - 1], r, alg)
+        if j:
+            bad.append((k, j[0], j[1]))
+    return bad
+
+
+def same_size_variant(T):
+    """The same names, sizes (and, in the sequences, mtimes) with different bytes."""
+    if T[0] == "f":
+        return F(bytes(b ^ 1 for b in T[1]))
+    if T[0] == "d":
+        return D({k: same_size_variant(v) for k, v in T[1].items()})
+    return T
+
+
+def gen_job(rng, T, pool, alg):
+    name = rng.choice(BASENAMES)
+    other = [a for a in ALGS if a != alg][0]
+
+    def sp(tree, a=alg):
+        s = concretise(rng, tree, name, a)
+        s["mtimes"] = [T_FIXED] * len(s["mtimes"])
+        return s
+    sT = sp(T)
+    tj = tree_json(T)
+    V = same_size_variant(T)
+    steps = [{"op": "fresh", "spec": sT, "tree": tj, "what": "first call"},
+             {"op": "repeat", "spec": sT, "tree": tj, "what": "unchanged, called again"},
+             {"op": "repeat", "spec": sT, "tree": tj, "rel": True, "what": "unchanged, relative dir argument"},
+             {"op": "repeat", "spec": dict(sT, alg=other), "tree": tj, "what": "unchanged, other algorithm"},
+             {"op": "repeat", "spec": sT, "tree": tj, "what": "unchanged, first algorithm again"}]
+    for ek, T2 in gen_edits(rng, T, pool):
+        steps.append({"op": "sync", "spec": sp(T2), "tree": tree_json(T2), "what": "in place: " + ek})
+        steps.append({"op": "sync", "spec": sT, "tree": tj, "what": "in place: undo " + ek})
+    if V != T:
+        sV = sp(V)
+        vj = tree_json(V)
+        steps += [{"op": "sync", "spec": sV, "tree": vj, "what": "in place: all file bytes changed, sizes kept"},
+                  {"op": "rebuild", "spec": sT, "tree": tj, "what": "rmtree, original rebuilt at the same path"},
+                  {"op": "rebuild", "spec": sV, "tree": vj, "what": "rmtree, same-size variant rebuilt at the same path"},
+                  {"op": "repeat", "spec": sV, "tree": vj, "rel": True, "what": "unchanged, relative dir argument"},
+                  {"op": "other-cwd", "spec": sT, "tree": tj, "rel": True,
+                   "what": "original under another working directory, same relative path"},
+                  {"op": "other-cwd", "spec": sV, "tree": vj, "rel": True,
+                   "what": "variant under the other working directory, same relative path"}]
+    return {"steps": steps}
+
+
+def shrink_job(job, k, kind):
+    """Smallest sequence and smallest trees on which step k still fails in the same way."""
+    steps = job["steps"]
+    prev = dict(steps[k - 1], op="fresh") if k > 0 else None
+    pair = {"steps": ([prev] if prev else []) + [steps[k]]}
+
+    def still(j):
+        b = judge_job(j, impl_inplace(j))
+        return any(x[0] == len(j["steps"]) - 1 and x[1] == kind for x in b)
+    if not still(pair):
+        cut = {"steps": steps[:k + 1]}
+        return cut if still(cut) else job
+    paths = sorted({tuple(e[0]) for st in pair["steps"] for e in st["spec"]["entries"]})
+
+    def build(keep):
+        ks = set(keep)
+        return {"steps": [dict(st, spec=restrict_spec(st["spec"], ks),
+                               tree=tree_json(remove_paths(tree_unjson(st["tree"]), ks))) for st in pair["steps"]]}
+
+    def fails(keep):
+        j = build(keep)
+        return all(chain_free(tree_unjson(st["tree"])) for st in j["steps"]) and still(j)
+    keep = vlib.ddmin(paths, fails, budget=60) if len(paths) > 1 and fails(paths) else paths
+    return build(keep)
 
 
 def w_group(specs):
@@ -1003,6 +1196,36 @@ def run(ctx: vlib.Ctx):
             disagreements.append({"kind": "tree", "edit": "small-domain", "spec": s, "model": want, "impl": got})
 
     _phase(ctx, "small domain")
+    # ---------------- 2b. one process, one path, many states: nothing may survive from an earlier call
+    jobs = []
+    for _ in range(ctx.budget(40, 320)):
+        T, pool = gen_tree(rng, outside=False)
+        jobs.append(gen_job(rng, T, pool, rng.choice(ALGS)))
+    jres = vlib.pmap(impl_inplace, jobs)
+    evals += sum(len(r) + sum(3 * len(x[3]) for x in r) for r in jres)
+    job_steps = sum(len(j["steps"]) for j in jobs)
+    jm_cases, jm_where = [], []
+    for ji, (job, rs) in enumerate(zip(jobs, jres)):
+        if any(r[0] == "timeout" for r in rs):
+            timeouts += 1
+            continue
+        bad = judge_job(job, rs)
+        if bad:
+            k, jk, why = bad[0]
+            failures.append({"kind": "inplace", "judge": jk, "why": why, "job": job, "step": k})
+        for k, (st, r) in enumerate(zip(job["steps"], rs)):
+            if wire_safe(st["spec"]):
+                jm_cases.append(model_case(st["spec"], r[2]))
+                jm_where.append((ji, k))
+    jm = run_model_spread(jm_cases, ctx.seed + 1)
+    for (ji, k), mr in zip(jm_where, jm):
+        st, r = jobs[ji]["steps"][k], jres[ji][k]
+        want = "outside" if mr[3] == [] else model_dict(mr[3][0], mr[2], st["spec"]["alg"])
+        got = r[1] if r[0] == "ok" else r[0]
+        if want != got and len(disagreements) < 50:
+            disagreements.append({"kind": "same-process", "step": k, "what": st["what"], "spec": st["spec"],
+                                  "model": str(want)[:600], "impl": str(got)[:600]})
+    _phase(ctx, "same-process sequences")
     # ---------------- 3. the hashing functions and the read loop
     hcases = []
     for size in sizes:
@@ -1095,6 +1318,28 @@ def run(ctx: vlib.Ctx):
                    **{k: c[k] for k in ("cuts", "skip", "n") if k in c}}
             ctx.violation(f"hashing ({c['mode']}, {c['alg']}, {len(c['data'])} bytes): {f['why']}", rep, sig_obj=sig)
             continue
+        if f["kind"] == "inplace":
+            st = f["job"]["steps"][f["step"]]
+            pre = {"kind": "same-process-state", "op": st["op"], "judge": f["judge"], "what": st["what"].split(":")[0]}
+            if vlib.signature(pre) in seen:
+                continue
+            small = shrink_job(f["job"], f["step"], f["judge"])
+            last = small["steps"][-1]
+            nodes = (diff_kinds(tree_unjson(small["steps"][-2]["tree"]), tree_unjson(last["tree"]))
+                     if len(small["steps"]) > 1 else [])
+            sig = {"kind": "same-process-state", "op": last["op"], "judge": f["judge"], "nodes": nodes}
+            if vlib.signature(sig) in seen:
+                continue
+            seen.add(vlib.signature(sig))
+            seen.add(vlib.signature(pre))
+            rs = impl_inplace(small)
+            ctx.violation(
+                f"dir_hashsums/file_hashsum depend on what the process hashed before ({st['what']}): {f['judge']}: "
+                f"{f['why']}; shrunk: {json.dumps(sig)}",
+                {"kind": "inplace", "job": small, "steps": [x["what"] for x in small["steps"]],
+                 "impl": [[r[0], r[1], r[3]] for r in rs]},
+                sig_obj=sig)
+            continue
         pre = sig_of(f["kind"], f["A"], f["B"])
         if vlib.signature(pre) in seen:
             continue
@@ -1141,8 +1386,10 @@ def run(ctx: vlib.Ctx):
         "depth": _hist(max([len(p) for p, _ in walk(g[1][0])] or [0]) for g in groups),
         "trees_with_outside_link": sum(1 for t in all_trees if has_outside(t)),
         "relative_dir_argument": sum(1 for g in groups for s in g[0] if s["relcall"]),
+        "same_process_jobs": len(jobs), "same_process_steps": job_steps,
+        "same_process_ops": _hist(st["op"] + (":rel" if st.get("rel") else "") for j in jobs for st in j["steps"]),
         "hash_cases": _hist(c["mode"] for c in hcases), "hash_sizes": sizes,
-        "model_tree_cases": len(mcases) + len(dm), "model_hash_cases": len(mh_cases),
+        "model_tree_cases": len(mcases) + len(dm) + len(jm_cases), "model_hash_cases": len(mh_cases),
         "timeouts_rerun_alone": timeouts,
     }
     cov["coq_crosscheck"] = {"tree": xc, "hash": xc2}
@@ -1194,6 +1441,17 @@ def replay(rep) -> int:
         j = judge_pair(A, B, ra, rb, sa["alg"])
         print(f"still failing: {j[0]}: {j[1]}" if j else "no longer failing")
         return 1 if j else 0
+    if kind == "inplace":
+        job = rep["job"]
+        rs = impl_inplace(job)
+        for st, r in zip(job["steps"], rs):
+            print(f"{st['op']:9s} {st['what']}: {r[0]} {str(r[1])[:150]}")
+        bad = judge_job(job, rs)
+        for k, jk, why in bad:
+            print(f"still failing at step {k}: {jk}: {why}")
+        if not bad:
+            print("no longer failing")
+        return 1 if bad else 0
     if kind == "hash":
         c = {k: rep[k] for k in ("mode", "alg", "cuts", "skip", "n") if k in rep}
         c["data"] = rep["data"].encode("latin-1")
